@@ -1,10 +1,12 @@
 package rules
 
 import (
+	"encoding/json"
 	"fmt"
 	"os"
 	"os/exec"
 	"path/filepath"
+	"sort"
 	"strings"
 	"sync"
 )
@@ -95,6 +97,248 @@ func SelfTest(prop, repo, verif string) *SelfTestResult {
 				row["result"] = fmt.Sprintf("SURVIVED (exit %d)", code)
 			}
 		}(i, v)
+	}
+	wg.Wait()
+	for _, r := range rows {
+		res.Rows = append(res.Rows, r)
+		if strings.HasPrefix(r["result"], "skipped") {
+			continue
+		}
+		res.Total++
+		if r["result"] == "killed" {
+			res.Killed++
+		} else {
+			res.Errors = append(res.Errors, fmt.Sprintf("SELFTEST-FAIL variant=%s expect=%s: %s", r["variant"], r["expect"], r["result"]))
+		}
+	}
+	return res
+}
+
+// ---------------------------------------------------------------------------
+// Stored seeded changes (independent sub-agents' patches under <verif>/seeded) as
+// additional self-test inputs: every stored change that the property's own check
+// reported when it was recorded must still be reported. The patch is applied to
+// copies of the touched files (never to the repository) and analysed through the
+// overlay. A patch that no longer applies to this tree is skipped.
+// ---------------------------------------------------------------------------
+
+type seededCase struct {
+	ID     string
+	Expect []string          // rule ids, any of which must fire
+	Files  map[string]string // repo-relative path -> patched content
+	Skip   string
+}
+
+type hunk struct {
+	oldStart int
+	lines    []string // with their ' ', '+', '-' prefix
+}
+
+func parseUnified(diff string) map[string][]hunk {
+	out := map[string][]hunk{}
+	var file string
+	var cur *hunk
+	flush := func() {
+		if cur != nil && file != "" {
+			out[file] = append(out[file], *cur)
+		}
+		cur = nil
+	}
+	for _, ln := range strings.Split(diff, "\n") {
+		switch {
+		case strings.HasPrefix(ln, "+++ b/"):
+			flush()
+			file = strings.TrimPrefix(ln, "+++ b/")
+		case strings.HasPrefix(ln, "--- "), strings.HasPrefix(ln, "diff --git"), strings.HasPrefix(ln, "index "):
+			flush()
+		case strings.HasPrefix(ln, "@@"):
+			flush()
+			var os_, ol, ns, nl int
+			hdr := ln
+			if i := strings.Index(hdr[2:], "@@"); i >= 0 {
+				hdr = hdr[:i+2]
+			}
+			hdr = strings.NewReplacer(",", " ", "@@", "", "-", "", "+", "").Replace(hdr)
+			n, _ := fmt.Sscan(hdr, &os_, &ol, &ns, &nl)
+			if n < 1 {
+				continue
+			}
+			cur = &hunk{oldStart: os_}
+		default:
+			if cur != nil && (strings.HasPrefix(ln, " ") || strings.HasPrefix(ln, "+") || strings.HasPrefix(ln, "-") || ln == "") {
+				if ln == "" {
+					ln = " "
+				}
+				cur.lines = append(cur.lines, ln)
+			}
+		}
+	}
+	flush()
+	return out
+}
+
+func applyHunks(orig string, hs []hunk) (string, bool) {
+	lines := strings.Split(orig, "\n")
+	offset := 0
+	for _, h := range hs {
+		// trailing blank context produced by the split of the diff's final newline
+		hl := h.lines
+		for len(hl) > 0 && hl[len(hl)-1] == " " {
+			hl = hl[:len(hl)-1]
+		}
+		var old []string
+		for _, l := range hl {
+			if l[0] == ' ' || l[0] == '-' {
+				old = append(old, l[1:])
+			}
+		}
+		match := func(at int) bool {
+			if at < 0 || at+len(old) > len(lines) {
+				return false
+			}
+			for i, o := range old {
+				if lines[at+i] != o {
+					return false
+				}
+			}
+			return true
+		}
+		at := h.oldStart - 1 + offset
+		found := -1
+		for d := 0; d <= 400 && found < 0; d++ {
+			if match(at + d) {
+				found = at + d
+			} else if match(at - d) {
+				found = at - d
+			}
+		}
+		if found < 0 {
+			return "", false
+		}
+		var repl []string
+		for _, l := range hl {
+			if l[0] == ' ' || l[0] == '+' {
+				repl = append(repl, l[1:])
+			}
+		}
+		lines = append(lines[:found], append(repl, lines[found+len(old):]...)...)
+		offset += len(repl) - len(old)
+	}
+	return strings.Join(lines, "\n"), true
+}
+
+func loadSeeded(prop, repo, verif string) []seededCase {
+	var out []seededCase
+	dirs, _ := filepath.Glob(filepath.Join(verif, "seeded", prop+"-*"))
+	sort.Strings(dirs)
+	for _, d := range dirs {
+		mb, err := os.ReadFile(filepath.Join(d, "meta.json"))
+		if err != nil {
+			continue
+		}
+		var meta struct {
+			ID         string              `json:"id"`
+			DetectedBy map[string][]string `json:"detected_by"`
+		}
+		if json.Unmarshal(mb, &meta) != nil {
+			continue
+		}
+		keys := meta.DetectedBy[prop]
+		if len(keys) == 0 {
+			continue // recorded as missed (or reported only by another property's check)
+		}
+		c := seededCase{ID: meta.ID, Files: map[string]string{}}
+		seen := map[string]bool{}
+		for _, k := range keys {
+			r := k
+			if i := strings.Index(k, ":"); i > 0 {
+				r = k[:i]
+			}
+			if !seen[r] {
+				seen[r] = true
+				c.Expect = append(c.Expect, r)
+			}
+		}
+		pb, err := os.ReadFile(filepath.Join(d, "patch.diff"))
+		if err != nil {
+			continue
+		}
+		for file, hs := range parseUnified(string(pb)) {
+			src, err := os.ReadFile(filepath.Join(repo, file))
+			if err != nil {
+				c.Skip = "skipped: " + err.Error()
+				break
+			}
+			patched, ok := applyHunks(string(src), hs)
+			if !ok {
+				c.Skip = "skipped: the stored patch no longer applies to " + file
+				break
+			}
+			c.Files[file] = patched
+		}
+		out = append(out, c)
+	}
+	return out
+}
+
+// SelfTestSeeded runs the stored seeded changes of a property.
+func SelfTestSeeded(prop, repo, verif string) *SelfTestResult {
+	res := &SelfTestResult{}
+	cases := loadSeeded(prop, repo, verif)
+	if len(cases) == 0 {
+		return res
+	}
+	tmp, err := os.MkdirTemp("", "yv-seeded-")
+	if err != nil {
+		res.Errors = append(res.Errors, "SELFTEST-FAIL cannot create temp dir: "+err.Error())
+		return res
+	}
+	defer os.RemoveAll(tmp)
+	rows := make([]map[string]string, len(cases))
+	sem := make(chan struct{}, 5)
+	var wg sync.WaitGroup
+	for i, c := range cases {
+		wg.Add(1)
+		go func(i int, c seededCase) {
+			defer wg.Done()
+			sem <- struct{}{}
+			defer func() { <-sem }()
+			row := map[string]string{"variant": "seeded/" + c.ID, "expect": strings.Join(c.Expect, "|")}
+			rows[i] = row
+			if c.Skip != "" {
+				row["result"] = c.Skip
+				return
+			}
+			args := []string{"check", "-p", prop, "-tier", "quick", "-repo", repo, "-evidence", filepath.Join(tmp, fmt.Sprintf("ev%d", i)), "-noselftest"}
+			j := 0
+			for file, content := range c.Files {
+				mf := filepath.Join(tmp, fmt.Sprintf("s%d_%d.go", i, j))
+				j++
+				if err := os.WriteFile(mf, []byte(content), 0o644); err != nil {
+					row["result"] = "skipped: " + err.Error()
+					return
+				}
+				args = append(args, "-overlay", file+"="+mf)
+			}
+			cmd := exec.Command(os.Args[0], args...)
+			outb, _ := cmd.CombinedOutput()
+			out := string(outb)
+			code := cmd.ProcessState.ExitCode()
+			hit := false
+			for _, r := range c.Expect {
+				if strings.Contains(out, "rule "+r+" at ") {
+					hit = true
+				}
+			}
+			switch {
+			case strings.Contains(out, "NOT-ANALYSABLE"):
+				row["result"] = "variant does not type-check"
+			case code == 1 && hit:
+				row["result"] = "killed"
+			default:
+				row["result"] = fmt.Sprintf("SURVIVED (exit %d)", code)
+			}
+		}(i, c)
 	}
 	wg.Wait()
 	for _, r := range rows {
